@@ -161,6 +161,10 @@ class Resource(Entity):
         super().__init__(name)
         self._capacity = capacity
         self._available = capacity
+        # Capacity that was taken away (set_capacity) while it was still held
+        # by grants: it is repaid from releases before anything becomes
+        # available again, so that available - deficit == capacity - held.
+        self._deficit: int | float = 0
         self._waiters: deque[_Waiter] = deque()
 
         # Stats counters
@@ -268,6 +272,38 @@ class Resource(Entity):
 
         return future
 
+    def set_capacity(self, capacity: int | float) -> None:
+        """Change the total capacity while grants may be outstanding.
+
+        Shrinking takes the difference out of ``available`` first; what is
+        still held by grants is remembered and absorbed as those grants are
+        released (outstanding grants are never revoked). Growing first cancels
+        such a remainder, then adds to ``available`` and wakes waiters.
+
+        Args:
+            capacity: New total capacity (must be > 0).
+
+        Raises:
+            ValueError: If capacity is not positive.
+        """
+        if capacity <= 0:
+            raise ValueError(f"capacity must be > 0, got {capacity}")
+        held = self._capacity - (self._available - self._deficit)
+        grew = capacity > self._capacity
+        self._capacity = capacity
+        self._settle(capacity - held)
+        if grew:
+            self._wake_waiters()
+
+    def _settle(self, net: int | float) -> None:
+        """Split ``capacity - held`` into available (>= 0) and deficit (>= 0)."""
+        if net >= 0:
+            self._available = net
+            self._deficit = 0
+        else:
+            self._available = 0
+            self._deficit = -net
+
     def try_acquire(self, amount: int | float = 1) -> Grant | None:
         """Try to acquire capacity without blocking.
 
@@ -301,14 +337,14 @@ class Resource(Entity):
 
         Called by Grant.release(). Raises if release would exceed capacity.
         """
-        future_available = self._available + amount
+        future_available = self._available - self._deficit + amount
         if future_available > self._capacity:
             raise ValueError(
                 f"releasing {amount} would exceed capacity "
                 f"({self._available} + {amount} > {self._capacity})"
             )
 
-        self._available += amount
+        self._settle(future_available)
         self._releases += 1
 
         logger.debug(
